@@ -67,8 +67,8 @@ func (w *World) generate(p string) *checkResult {
 	sort.Strings(names)
 	for _, n := range names {
 		c := w.contracts[n]
-		if c.Assumed || !contractServes(c, p) {
-			continue
+		if c.Assumed || c.Inline || !contractServes(c, p) {
+			continue // an `inline` function is verified wherever it is inlined
 		}
 		short := relName(n, c.Pkg)
 		pk := strings.TrimPrefix(strings.TrimPrefix(c.Pkg, repoMod+"/"), "internal/")
